@@ -2,6 +2,7 @@
    from) and src/frame.rs (Frame::parse).  Constants come from the generated
    Consts.v. *)
 From Rdest Require Export Base Consts.
+From Rdest Require Import ShapeCheck.   (* the vocabulary of the code is the one modelled: see ShapeCheck.v *)
 Open Scope N_scope.
 
 Inductive msg : Type :=
